@@ -511,7 +511,53 @@ def _exec_payload_one(ctx, h, scratch):
         _match_known(h, res)
         return res
     probes["b.resaved_unchanged"] = 1
+    if h["flavor"] is None and h["fk"] % 2 == 0 and tag not in ("hmtx", "vmtx", "glyf", "loca", "post", "head", "maxp", "hhea", "vhea"):
+        # (the tables of findings K3-K7 and the ones a save has to interpret are left to the single-font clause)
+        _payload_in_collection(h, img, tag, bad, res)
     return res
+
+
+def _payload_in_collection(h, img, tag, bad, res):
+    """The same damaged table shared by the members of a collection that is opened with shared table
+    objects: every member keeps it raw, can be dumped, and the re-saved collection carries the bytes."""
+    from fontTools.ttLib import TTFont, TTCollection
+
+    probes = res["probes"]
+    try:
+        c0 = TTCollection()
+        c0.fonts = [TTFont(io.BytesIO(img), ignoreDecompileErrors=True, recalcTimestamp=False) for _ in range(2)]
+        b = io.BytesIO()
+        c0.save(b, shareTables=True)
+        ttc = b.getvalue()
+        offs = container.ttc_offsets(ttc)
+        if len(offs) != 2 or container.tables_of(ttc, fontNumber=1).get(tag) != bad:
+            return
+    except Exception:
+        return
+    probes["b.ttc_shared"] = 1
+    try:
+        c = TTCollection(io.BytesIO(ttc), shareTables=True, ignoreDecompileErrors=True, lazy=h["lazy"], recalcTimestamp=False)
+        order = [0, 1] if h["fk"] % 4 == 0 else [1, 0]
+        for i in order:
+            m = c.fonts[i]
+            m[tag]
+            got = m.getTableData(tag)
+            if got != bad:
+                raise AssertionError("member %d: getTableData returns %d bytes, the damaged table has %d" % (i, len(got), len(bad)))
+            m.saveXML(io.StringIO(), tables=[tag])
+        o = io.BytesIO()
+        c.save(o, shareTables=h["fk"] % 8 < 4)
+        for i in (0, 1):
+            back = container.tables_of(o.getvalue(), fontNumber=i).get(tag)
+            if back != bad and not (tag == "head" and back is not None and len(back) >= 12 and back[:8] + back[12:] == bad[:8] + bad[12:]):
+                raise AssertionError("member %d of the re-saved collection stores %s bytes for the damaged table (%d)" % (i, None if back is None else len(back), len(bad)))
+    except Exception as e:
+        res["violation"] = {
+            "class": "undecodable-not-kept-raw:%s:shared-in-collection" % tag.strip(),
+            "detail": "damaged %r shared by two members of a collection opened with shareTables=True, ignoreDecompileErrors=True (%s, fault=%s, lazy=%s): %s: %s" % (tag, h["font"], h["fault"], h["lazy"], type(e).__name__, str(e)[:160]),
+            "sig": {"tag": tag, "clause": "b1-ttc", "exc": type(e).__name__},
+        }
+        _match_known(h, res)
 
 
 # ---------------------------------------------------------------------------
